@@ -474,7 +474,7 @@ class IEG:
             if is_await_poll(t):
                 return self._await_succs(n, nxt)
             cb = self.local_callee(f, func)
-            if cb is not None and (self.inline_filter is None or self.inline_filter(cb)):
+            if cb is not None and (self.inline_filter is None or self.inline_filter(cb) or self.facts.is_new_helper(cb.npath)):
                 child = self._new_frame(cb, f, n.bb, 'call', self.call_subst(f, func, cb), call_term=t)
                 return [(self._node(child, 0, None), 'call')]
             # closures handed to external higher-order functions
